@@ -2921,6 +2921,13 @@ def fixup_reshape(op, arch, nng):
     return op
 
 
+def _per_channel_slice(value, start, end):
+    """Quantisation parameters of the output channels [start, end); per-tensor parameters (scalars) apply to every channel"""
+    if isinstance(value, np.ndarray) and value.ndim > 0 and value.size > 1:
+        return value[..., start:end]
+    return value
+
+
 def convert_conv_groups(op: Operation, arch, nng):
     """
     Convert convolution groups to a split followed by separate convolutions and then a concat.
@@ -2944,7 +2951,7 @@ def convert_conv_groups(op: Operation, arch, nng):
         # first input is the split axis
         split_op.add_input_tensor(
             # split along the depth axis
-            create_const_tensor(f"{split_op.name}_axis", [0], DataType.int32, [-1])
+            create_const_tensor(f"{split_op.name}_axis", [], DataType.int32, -1)
         )
         # second input is the ifm
         split_op.add_input_tensor(op.ifm)
@@ -2990,8 +2997,12 @@ def convert_conv_groups(op: Operation, arch, nng):
             # across all of the convolution groups
             conv_group_op_weights_shape = op.weights.shape[:-1] + [num_filters_cg]
             conv_group_op_weights_quant = op.weights.quantization.clone()
-            conv_group_op_weights_quant.scale_f32 = op.weights.quantization.scale_f32[..., cg_oc_start:cg_oc_end]
-            conv_group_op_weights_quant.zero_point = op.weights.quantization.zero_point[..., cg_oc_start:cg_oc_end]
+            conv_group_op_weights_quant.scale_f32 = _per_channel_slice(
+                op.weights.quantization.scale_f32, cg_oc_start, cg_oc_end
+            )
+            conv_group_op_weights_quant.zero_point = _per_channel_slice(
+                op.weights.quantization.zero_point, cg_oc_start, cg_oc_end
+            )
             conv_group_op.add_input_tensor(
                 create_const_tensor(
                     f"{op.weights.name}_cg{i}",
@@ -3009,8 +3020,12 @@ def convert_conv_groups(op: Operation, arch, nng):
             else:
                 conv_group_op_bias_shape = op.bias.shape[:-1] + [num_filters_cg]
                 conv_group_op_bias_quant = op.bias.quantization.clone()
-                conv_group_op_bias_quant.scale_f32 = op.bias.quantization.scale_f32[..., cg_oc_start:cg_oc_end]
-                conv_group_op_bias_quant.zero_point = op.bias.quantization.zero_point[..., cg_oc_start:cg_oc_end]
+                conv_group_op_bias_quant.scale_f32 = _per_channel_slice(
+                    op.bias.quantization.scale_f32, cg_oc_start, cg_oc_end
+                )
+                conv_group_op_bias_quant.zero_point = _per_channel_slice(
+                    op.bias.quantization.zero_point, cg_oc_start, cg_oc_end
+                )
                 conv_group_op.add_input_tensor(
                     create_const_tensor(
                         f"{op.bias.name}_cg{i}",
